@@ -1372,6 +1372,11 @@ class Session:
         self.manager.on_pairing_failure(self, reason)
 
     def on_smp_command(self, command: SMP_Command) -> None:
+        if self.completed:
+            # The pairing has ended (it may have failed): nothing more to process
+            logger.warning('SMP command received after the end of the pairing, ignored')
+            return
+
         try:
             match command:
                 case SMP_Pairing_Request_Command():
@@ -1644,6 +1649,12 @@ class Session:
     ) -> None:
         if self.pairing_method == PairingMethod.PASSKEY and self.passkey is None:
             logger.warning('no passkey entered, ignoring command')
+            return
+
+        if not self.dh_key:
+            # No key can be derived before the public keys have been exchanged
+            logger.warning('random value received before the public key')
+            self.send_pairing_failed(ErrorCode.UNSPECIFIED_REASON)
             return
 
         # pylint: disable=too-many-return-statements
